@@ -457,15 +457,28 @@ def momentum_rule(ctx):
     res = RuleResult("BN-MOMENTUM", "running statistics follow new = (1 - m) * old + m * stat for one and the same m")
     fwd = cls.lookup_method("forward")
     # names bound to batch statistics (reductions over dim 0 of inputs) in forward
+    # any local computed from the inputs alone (not from the running buffers) is a batch
+    # statistic for the purpose of the update formula: inputs.mean(0), inputs.var(0),
+    # torch.var_mean(inputs, 0), a variance assembled from moments, ...
     statnames = set()
-    for n in ast.walk(fwd.node):
-        if isinstance(n, ast.Assign):
+    x = fwd.params()[0][0]
+    changed = True
+    while changed:
+        changed = False
+        for n in ast.walk(fwd.node):
+            if not isinstance(n, ast.Assign):
+                continue
             tl = n.targets[0]
             names = [e.id for e in (tl.elts if isinstance(tl, ast.Tuple) else [tl]) if isinstance(e, ast.Name)]
-            vals = n.value.elts if isinstance(n.value, ast.Tuple) else [n.value]
-            for nm, v in zip(names, vals):
-                if isinstance(v, ast.Call) and isinstance(v.func, ast.Attribute) and v.func.attr in ("mean", "var", "std") and attr_chain(v.func.value) == "inputs":
-                    statnames.add(nm)
+            used = {m.id for m in ast.walk(n.value) if isinstance(m, ast.Name)}
+            attrs_used = {attr_chain(m) for m in ast.walk(n.value) if isinstance(m, ast.Attribute)}
+            if (x in used or used & statnames) and not any(a and a.startswith("self.running") for a in attrs_used):
+                reduces = any(isinstance(c, ast.Call) and isinstance(c.func, ast.Attribute) and c.func.attr in ("mean", "var", "std", "var_mean", "sum") for c in ast.walk(n.value)) or bool(used & statnames)
+                if reduces:
+                    for nm in names:
+                        if nm not in statnames and nm != x:
+                            statnames.add(nm)
+                            changed = True
     want = {("old",): 1.0, ("m", "old"): -1.0, ("m", "stat"): 1.0}
     found = 0
     for buf in ("running_mean", "running_var"):
